@@ -163,6 +163,10 @@ def run_config(pid, hname, cfg, tier, seed, opts):
                 conly = [(n, d) for n, st, d in CW.obs if st == 'fail-concrete-only']
                 if conly:
                     res['candidates'].append({'ob': conly[0][0], 'values': vals, 'path': res['paths']})
+                if exc is not None and exc != 'assumption':
+                    # the real code raises at a point of a path that ended normally in the symbolic run: replayed like any candidate
+                    res['candidates'].append({'ob': f'exception:{type(exc).__name__}', 'values': vals, 'path': res['paths'],
+                                              'note': 'raised in the concrete validation run: ' + repr(exc)[:200]})
                 if exc is None:
                     res['validation']['cases'] += 1
                     bad = []
